@@ -10,6 +10,7 @@ import (
 	"io"
 	"os"
 	"sort"
+	"sync"
 	"syscall"
 	"time"
 
@@ -36,6 +37,7 @@ type vLNode struct {
 }
 
 type vLinkFs struct {
+	mu     sync.Mutex // natively the heartbeat goroutines run in parallel with the harness
 	nodes  map[string]*vLNode // cleaned absolute path -> node ("/" always present)
 	log    []vOp
 	opens  int
@@ -58,11 +60,14 @@ func (fs *vLinkFs) now() time.Time {
 }
 
 func (fs *vLinkFs) rec(name, path, path2 string, mutating bool) error {
+	fs.mu.Lock()
 	fs.log = append(fs.log, vOp{name: name, path: path, path2: path2, mutating: mutating})
-	op := &fs.log[len(fs.log)-1]
-	if fs.before != nil {
-		if err := fs.before(op); err != nil {
-			op.failed = true
+	op := fs.log[len(fs.log)-1]
+	hook := fs.before
+	fs.mu.Unlock()
+	if hook != nil {
+		// runs without the lock: the hook may call back into the filesystem (interference)
+		if err := hook(&op); err != nil {
 			return err
 		}
 	}
@@ -227,6 +232,8 @@ func (fs *vLinkFs) Stat(name string) (os.FileInfo, error) {
 	if err := fs.rec("Stat", name, "", false); err != nil {
 		return nil, err
 	}
+	fs.mu.Lock()
+	defer fs.mu.Unlock()
 	real, n, err := fs.resolve("stat", name, true)
 	if err != nil {
 		return nil, err
@@ -241,6 +248,8 @@ func (fs *vLinkFs) LstatIfPossible(name string) (os.FileInfo, bool, error) {
 	if err := fs.rec("Lstat", name, "", false); err != nil {
 		return nil, true, err
 	}
+	fs.mu.Lock()
+	defer fs.mu.Unlock()
 	real, n, err := fs.resolve("lstat", name, false)
 	if err != nil {
 		return nil, true, err
@@ -255,6 +264,8 @@ func (fs *vLinkFs) ReadlinkIfPossible(name string) (string, error) {
 	if err := fs.rec("Readlink", name, "", false); err != nil {
 		return "", err
 	}
+	fs.mu.Lock()
+	defer fs.mu.Unlock()
 	_, n, err := fs.resolve("readlink", name, false)
 	if err != nil {
 		return "", err
@@ -272,6 +283,8 @@ func (fs *vLinkFs) SymlinkIfPossible(oldname, newname string) error {
 	if err := fs.rec("Symlink", newname, oldname, true); err != nil {
 		return err
 	}
+	fs.mu.Lock()
+	defer fs.mu.Unlock()
 	real, n, err := fs.resolve("symlink", newname, false)
 	if err != nil {
 		return err
@@ -287,6 +300,8 @@ func (fs *vLinkFs) Mkdir(name string, perm os.FileMode) error {
 	if err := fs.rec("Mkdir", name, "", true); err != nil {
 		return err
 	}
+	fs.mu.Lock()
+	defer fs.mu.Unlock()
 	real, n, err := fs.resolve("mkdir", name, false)
 	if err != nil {
 		return err
@@ -303,6 +318,8 @@ func (fs *vLinkFs) MkdirAll(path string, perm os.FileMode) error {
 	if err := fs.rec("MkdirAll", path, "", true); err != nil {
 		return err
 	}
+	fs.mu.Lock()
+	defer fs.mu.Unlock()
 	parts := vlSplit(path)
 	for k := 1; k <= len(parts); k++ {
 		sub := vlJoin(parts[:k])
@@ -324,6 +341,8 @@ func (fs *vLinkFs) Remove(name string) error {
 	if err := fs.rec("Remove", name, "", true); err != nil {
 		return err
 	}
+	fs.mu.Lock()
+	defer fs.mu.Unlock()
 	real, n, err := fs.resolve("remove", name, false)
 	if err != nil {
 		return err
@@ -345,6 +364,8 @@ func (fs *vLinkFs) RemoveAll(path string) error {
 	if err := fs.rec("RemoveAll", path, "", true); err != nil {
 		return err
 	}
+	fs.mu.Lock()
+	defer fs.mu.Unlock()
 	real, n, err := fs.resolve("removeall", path, false)
 	if err != nil || n == nil {
 		return nil
@@ -363,6 +384,8 @@ func (fs *vLinkFs) Rename(oldname, newname string) error {
 	if err := fs.rec("Rename", oldname, newname, true); err != nil {
 		return err
 	}
+	fs.mu.Lock()
+	defer fs.mu.Unlock()
 	ro, no, err := fs.resolve("rename", oldname, false)
 	if err != nil {
 		return err
@@ -394,6 +417,8 @@ func (fs *vLinkFs) Chmod(name string, mode os.FileMode) error {
 	if err := fs.rec("Chmod", name, "", true); err != nil {
 		return err
 	}
+	fs.mu.Lock()
+	defer fs.mu.Unlock()
 	_, n, err := fs.resolve("chmod", name, true)
 	if err != nil {
 		return err
@@ -409,6 +434,8 @@ func (fs *vLinkFs) Chown(name string, uid, gid int) error {
 	if err := fs.rec("Chown", name, "", true); err != nil {
 		return err
 	}
+	fs.mu.Lock()
+	defer fs.mu.Unlock()
 	_, n, err := fs.resolve("chown", name, true)
 	if err != nil {
 		return err
@@ -423,6 +450,8 @@ func (fs *vLinkFs) Chtimes(name string, atime time.Time, mtime time.Time) error 
 	if err := fs.rec("Chtimes", name, "", true); err != nil {
 		return err
 	}
+	fs.mu.Lock()
+	defer fs.mu.Unlock()
 	_, n, err := fs.resolve("chtimes", name, true)
 	if err != nil {
 		return err
@@ -447,6 +476,8 @@ func (fs *vLinkFs) OpenFile(name string, flag int, perm os.FileMode) (afero.File
 	if err := fs.rec("OpenFile", name, "", mut); err != nil {
 		return nil, err
 	}
+	fs.mu.Lock()
+	defer fs.mu.Unlock()
 	real, n, err := fs.resolve("open", name, true)
 	if err != nil {
 		return nil, err
@@ -492,6 +523,8 @@ func (f *vLFile) Close() error {
 	if err := f.fs.rec("Close", f.path, "", false); err != nil {
 		return err
 	}
+	f.fs.mu.Lock()
+	defer f.fs.mu.Unlock()
 	if f.closed {
 		return afero.ErrFileClosed
 	}
@@ -503,6 +536,8 @@ func (f *vLFile) Read(p []byte) (int, error) {
 	if err := f.fs.rec("Read", f.path, "", false); err != nil {
 		return 0, err
 	}
+	f.fs.mu.Lock()
+	defer f.fs.mu.Unlock()
 	if f.closed {
 		return 0, afero.ErrFileClosed
 	}
@@ -520,6 +555,8 @@ func (f *vLFile) ReadAt(p []byte, off int64) (int, error) {
 	if err := f.fs.rec("ReadAt", f.path, "", false); err != nil {
 		return 0, err
 	}
+	f.fs.mu.Lock()
+	defer f.fs.mu.Unlock()
 	if off >= int64(len(f.node.data)) {
 		return 0, io.EOF
 	}
@@ -544,6 +581,8 @@ func (f *vLFile) Write(p []byte) (int, error) {
 	if err := f.fs.rec("Write", f.path, "", true); err != nil {
 		return 0, err
 	}
+	f.fs.mu.Lock()
+	defer f.fs.mu.Unlock()
 	if f.closed {
 		return 0, afero.ErrFileClosed
 	}
@@ -581,6 +620,8 @@ func (f *vLFile) Readdirnames(n int) ([]string, error) {
 	if err := f.fs.rec("Readdirnames", f.path, "", false); err != nil {
 		return nil, err
 	}
+	f.fs.mu.Lock()
+	defer f.fs.mu.Unlock()
 	if f.closed {
 		return nil, afero.ErrFileClosed
 	}
@@ -611,6 +652,8 @@ func (f *vLFile) Truncate(size int64) error {
 	if err := f.fs.rec("Truncate", f.path, "", true); err != nil {
 		return err
 	}
+	f.fs.mu.Lock()
+	defer f.fs.mu.Unlock()
 	if size < int64(len(f.node.data)) {
 		f.node.data = f.node.data[:size]
 	}
@@ -626,6 +669,8 @@ type vLEntry struct {
 }
 
 func (fs *vLinkFs) snapshot() []vLEntry {
+	fs.mu.Lock()
+	defer fs.mu.Unlock()
 	var out []vLEntry
 	for p, n := range fs.nodes {
 		out = append(out, vLEntry{path: p, kind: n.kind, data: string(n.data), target: n.target})
